@@ -18,6 +18,7 @@ for line in open(sys.argv[3]):
     g = re.match(r'^(C\d\d-\d+) \| suite-with-patch: (.*?) \| demo-with-patch: (.*?) \| demo-without: (.*)$', line.strip())
     if g:
         valid[g.group(1)] = {"existing_suite_with_patch": g.group(2), "demo_with_patch": g.group(3), "demo_without_patch": g.group(4)}
+RUN = json.load(open(sys.argv[4])) if len(sys.argv) > 4 else {}
 notes = json.load(open('/verif/tools/seed_notes.json')) if os.path.exists('/verif/tools/seed_notes.json') else {}
 rows = []
 key = lambda d: (os.path.basename(d.rstrip('/')).split('-')[0], int(os.path.basename(d.rstrip('/')).split('-')[1]))
@@ -39,6 +40,7 @@ for d in sorted(glob.glob('/tmp/seed5-*/*/'), key=key):
                           "the seed's own property with the checks as they were before round 5 ('caught_before_round5_extensions'), then, after the extensions, the own "
                           "property's check again plus the checks listed in 'checks_run_final'")
     meta['caught_before_round5_extensions'] = before.get(sid, [])
+    meta['checks_run_final'] = RUN.get(sid, [])
     meta['caught_by'] = final.get(sid, [])
     meta['caught_by_own_property_check'] = meta['property'] in final.get(sid, [])
     if sid in notes:
